@@ -328,10 +328,15 @@ pub(crate) fn value_cmp(lhs: &dyn ValueView, rhs: &dyn ValueView) -> Option<Orde
     }
 
     if let (Some(x), Some(y)) = (lhs.as_object(), rhs.as_object()) {
+        // Compare in key order so the result does not depend on the maps' iteration order.
+        let mut x: Vec<_> = x.iter().collect();
+        x.sort_by(|a, b| a.0.cmp(&b.0));
+        let mut y: Vec<_> = y.iter().collect();
+        y.sort_by(|a, b| a.0.cmp(&b.0));
         return x
-            .iter()
+            .into_iter()
             .map(|(k, v)| (k, ValueViewCmp(v)))
-            .partial_cmp(y.iter().map(|(k, v)| (k, ValueViewCmp(v))));
+            .partial_cmp(y.into_iter().map(|(k, v)| (k, ValueViewCmp(v))));
     }
 
     None
